@@ -63,7 +63,10 @@ Inductive frame :=
 | FArm (r c : nat)                         (* handleInvalidate(c, rerun) *)
 | FUnlock (r : nat)
 (* Stop *)
-| FStop (r : nat) (cancelled : bool).
+| FStop (r : nat) (cancelled : bool)
+(* AddDependency from a context without a rerunner *)
+| FOutAdd (n : nat)                        (* addOut(n, &node{released: true}) *)
+| FPhInv.                                  (* go placeholder.invalidate(): touches nothing *)
 
 Record rr := mkRR {
   r_mu     : bool;                 (* r.mu held *)
@@ -97,7 +100,8 @@ Inductive label :=
 | LInvalidate (slot : nat)     (* env: version+1; go res.invalidate(); the slot gets a fresh resource *)
 | LStop (r : nat)              (* env: somebody calls r.Stop() *)
 | LPurge (r : nat)             (* env: PurgeCache(ctx of r) *)
-| LTimer (n : nat).            (* env: the timer of InvalidateAfter resource n fires: go n.invalidate() *)
+| LTimer (n : nat)             (* env: the timer of InvalidateAfter resource n fires: go n.invalidate() *)
+| LOutside (slot : nat).       (* env: AddDependency(context.Background(), the slot's resource): no computation registers *)
 
 (** ** accessors *)
 Definition getr (s : state) (r : nat) : rr := nth r (s_rrs s) drr.
@@ -283,7 +287,9 @@ Definition step_top (s : state) (f : frame) (rest : list frame) (arg : nat) : re
       if Nat.eqb arg 0 then Some (s, FRunLock r :: rest, [])
       else if r_cancel (getr s r) then Some (s, rest, []) else None
   | FRunLock r =>
-      (* rerunner.go:378-384 *)
+      (* rerunner.go:378-384.  The write-then-read delay of a re-run (rerunner.go:386-389, time.Sleep with r.mu
+         held) lies between this label and CleanStart and is no label of its own: while it lasts r.mu is held, so
+         Stop's critical section and other runs of r are not enabled, and nothing else reads or writes r's state. *)
       let x := getr s r in
       if r_mu x then None
       else if r_stop x then Some (with_rr s r (set_mu x true), FUnlock r :: rest, [])
@@ -401,6 +407,13 @@ Definition step_top (s : state) (f : frame) (rest : list frame) (arg : nat) : re
       let x := getr s r in
       if r_mu x then None
       else Some (with_rr s r (set_stopped x), rest, opt_task (r_comp x) (fun old => [FRelEnter old]))
+  | FOutAdd n =>
+      (* rerunner.go:201-204 -> graph.go:141-174 with a released dependant that nobody else knows *)
+      if Nat.ltb n (length (s_nodes s)) then
+        let '(g, (shinv, shrel)) := g_add_out_released (s_nodes s) n in
+        Some (with_nodes s g, rest, (if shinv then [[FPhInv]] else []) ++ (if shrel then [[FRelEnter n]] else []))
+      else None
+  | FPhInv => Some (s, rest, [])
   end.
 
 (** frames whose work is finished are popped without a label *)
@@ -468,6 +481,8 @@ Definition step (s : state) (l : label) : option state :=
       if Nat.eqb (n_timer (getN s n)) 1
       then Some (spawn (upd_node s n (set_timer (getN s n) 2)) [[FInvList [n]]])
       else None
+  | LOutside sl =>
+      if Nat.ltb sl (length (s_slots s)) then Some (spawn s [[FOutAdd (slot_res s sl)]]) else None
   end.
 
 Fixpoint run (s : state) (ls : list label) : option state :=
